@@ -126,7 +126,7 @@ theorem pendingBlocks_mem_of {s : Store} {w : Nat} {bs : List Block} (h : pendin
 
 theorem dataItems_mem_of {s : Store} {w : Nat} {bs : List Block} (h : pendingBlocks s w = some bs)
     {k : Nat} {b : Block} (k1 : w < k) (k2 : k ≤ s.height) (hb : s.getBlock k = some b) (hne : b.data.txs ≠ []) :
-    ({ height := dataHeight b, key := b.data.daCommitment } : Item) ∈ dataItems bs := by
+    ({ height := dataHeight b, key := b.data.daCommitment, blob := dataBlob b } : Item) ∈ dataItems bs := by
   unfold dataItems
   refine List.mem_map.mpr ⟨b, List.mem_filter.mpr ⟨pendingBlocks_mem_of h k1 k2 hb, ?_⟩, rfl⟩
   cases ht : b.data.txs with
